@@ -88,9 +88,29 @@ func checkC19(c *Ctx) {
 	}
 	pos := c.P.Pos(det.Pos())
 	// the goroutine that sends
+	// a send that lives in a named helper (e.g. notifyChange(ctx, change)) is attributed to the helper's only call site
+	type hoistedSend struct {
+		at    ssa.Instruction // the send itself or the call that leads to it, in the worker
+		inner []string        // conditions inside the helper(s) between entry and the send
+	}
+	hoisted := make([]hoistedSend, len(change.Sends))
 	senders := map[*ssa.Function]bool{}
-	for _, s := range change.Sends {
-		senders[s.Fn] = true
+	for i, s := range change.Sends {
+		at := s.Instr
+		fn := s.Fn
+		for depth := 0; depth < 3 && fn.Parent() == nil && fn != det; depth++ {
+			sites, ok := staticCallSites(c.P, fn)
+			if !ok || len(sites) != 1 {
+				break
+			}
+			for _, a := range NewFnView(c.P, fn).GuardsAt(at.Block()) {
+				hoisted[i].inner = append(hoisted[i].inner, a.String())
+			}
+			at = sites[0]
+			fn = at.Parent()
+		}
+		hoisted[i].at = at
+		senders[fn] = true
 	}
 	if !c.Require(len(senders) == 1, "R19.4", "config.DetectDeviceConfigChanges/single-sender", fmt.Sprintf("%d sending functions", len(senders))) {
 		return
@@ -147,10 +167,13 @@ func checkC19(c *Ctx) {
 	for i, s := range change.Sends {
 		key := fmt.Sprintf("config.DetectDeviceConfigChanges/notify#%d", i+1)
 		spos := c.P.Pos(s.Instr.Pos())
-		atoms := vw.GuardsAt(s.Instr.Block())
+		atoms := vw.GuardsAt(hoisted[i].at.Block())
 		hasWrite, hasSuffix := false, false
 		gotSuffix := ""
 		var others []string
+		for _, g := range hoisted[i].inner {
+			others = append(others, "condition inside the sending helper "+g)
+		}
 		for _, a := range atoms {
 			cnd, taken := a.Cond, a.Taken
 			for cnd.Op == "unop" && cnd.Aux == "!" {
